@@ -61,7 +61,7 @@ def check_rewrites(ck: Checker, den: Denotations, prefix='C14'):
                      f'index {got_idx} but gates imply {want_idx}', construct=cons)
             # helper gates join exactly the blocks containing the rewritten gate; created through emplace_gate
             new = [l for l in c._gates if l not in before]
-            inb = [l for l in new if l not in c._blocks['has_g'].gates]
+            inb = [l for l in new if l not in c._blocks['has_g'].gates or l not in c._blocks['also_g'].gates]
             ino = [l for l in new if l in c._blocks['other'].gates]
             ck.check(not inb and not ino, BLK, hmod, h,
                      'every helper gate is added to exactly the blocks whose gates contain the rewritten gate',
